@@ -112,9 +112,14 @@ static const int N_SV = 6;
 // ticket (client victim only): the first handshake was answered with a session id AND a NewSessionTicket (RFC 5077 lets a server issue both), so the client's
 //   sslSessionId_t holds both and its next ClientHello carries the id and the ticket.  resumed=1: the server echoes the id -> abbreviated handshake under the real
 //   secret; resumed=0: the server declines (fresh id, no SessionTicket extension) -> full handshake.
-struct Mode { bool victim_server; int sv; bool cauth; int ems; bool resumed = false; bool ticket = false; };
+// cut (client victim only, history mode "ticket-from-cut-handshake"): connection 1 on the same sslSessionId_t was a full handshake with a ticket-issuing server
+//   that was cut before it completed: 1 = after ServerHelloDone, 2 = after the server's NewSessionTicket, 3 = after NewSessionTicket + CCS (the server's Finished
+//   never arrived); cut_err: the connection ended with a fatal alert from the peer instead of silently.  Nothing of that handshake may be offered for resumption
+//   (RFC 5077 3.3: a ticket is only valid once the server's Finished has been verified): connection 2 is a full handshake.
+struct Mode { bool victim_server; int sv; bool cauth; int ems; bool resumed = false; bool ticket = false; int cut = 0; bool cut_err = false; };
 static std::string mode_str(const Mode &m) { static const char *en[] = { "both", "puppet-off", "victim-off", "both-off" };
     return fmt("victim=%s %s %s cauth=%d ems=%s", m.victim_server ? "server" : "client", SV[m.sv].name,
+               m.cut ? fmt("ticket-from-cut-handshake(%s%s)", m.cut == 1 ? "after-SHD" : m.cut == 2 ? "after-NST" : "after-NST+CCS", m.cut_err ? ",alert" : "").c_str() :
                m.ticket ? (m.resumed ? "id+ticket-accepted" : "id+ticket-declined") : m.resumed ? "resumed" : "full", m.cauth, en[m.ems]); }
 
 struct Item { Step st; bool join = false; };
@@ -132,7 +137,7 @@ static int32 cb_accept_valid(ssl_t *, psX509Cert_t *, int32 alert) { return aler
 static bool victim_dead(const Endpoint &V) { return V.failed || V.req_close || V.fatal_alert_recv >= 0 || V.close_notify_recv; }
 
 // Drive one trace in lock-step: emit an item, deliver it (with its joined successors) to the victim, hand the victim's answer to the puppet.
-static Outcome run_trace(const Mode &m, const std::vector<Item> &items, size_t chunk, uint32_t seed, const Bytes *victim_says, int secret = 0) {
+static Outcome run_trace(const Mode &m, const std::vector<Item> &items, size_t chunk, uint32_t seed, const Bytes *victim_says, int secret = 0, bool empty_sid = false) {
     Outcome o; o.reached.assign(items.size(), 0);
     const SuiteVer &sv = SV[m.sv];
     vfh_entropy_reset(4000 + seed); vfh_clock_set_ms(1000000); pup::seed_rand(seed + 1);
@@ -141,13 +146,24 @@ static Outcome run_trace(const Mode &m, const std::vector<Item> &items, size_t c
     if (vc.client) vc.suites = { sv.suite };
     vc.client_auth = m.cauth; vc.cert_cb = m.victim_server ? cb_accept_valid : nullptr;
     if (m.ems >= 2) vc.ems = -1;
-    if (m.ticket) vc.tickets = true;
+    if (m.ticket || m.cut) vc.tickets = true;
     pup::Config pc; pc.role = m.victim_server ? pup::CLIENT : pup::SERVER; pc.version = sv.wire; pc.suite = sv.suite; pc.ems = !(m.ems == 1 || m.ems == 3);
     pc.client_auth = m.cauth; pc.seed = seed; pc.pki_dir = verif_dir() + "/pki";
     // session-id resumption: an honest full handshake first (fills the server's session cache / the client's sslSessionId_t), then the connection under test
     sslSessionId_t *sid = nullptr;
     struct SidGuard { sslSessionId_t *&s; ~SidGuard() { if (s) matrixSslDeleteSessionId(s); } } sid_guard{ sid };
-    if (m.resumed || m.ticket) {
+    if (m.cut) {
+        // connection 1: honest ticket-issuing server, cut before the handshake completes; the victim session is then deleted, the sslSessionId_t is kept
+        if (matrixSslNewSessionId(&sid, NULL) < 0) { o.open_failed = true; return o; } vc.sid = sid;
+        Endpoint V0; if (V0.open(vc) < 0) { o.open_failed = true; return o; }
+        pup::Config pc0 = pc; pc0.seed = seed + 7777; pc0.ack_ticket_ext = true; pup::Puppet12 P0(pc0);
+        V0.pump_out(); P0.feed(V0.take_wire());
+        int stop_after = m.cut == 1 ? pup::M_SERVER_HELLO_DONE : m.cut == 2 ? pup::M_NEW_SESSION_TICKET : pup::M_CCS;
+        for (auto &st : pup::legal_script(pc0)) { Bytes b = P0.emit(st); if (!b.empty()) V0.feed(b); V0.pump_out(); P0.feed(V0.take_wire()); if (st.msg == stop_after) break; }
+        if (m.cut_err) { Step al(pup::M_ALERT); al.payload = { 2, 80 }; Bytes b = P0.emit(al); V0.feed(b); }
+        if (V0.hs_complete() || V0.complete_evt || (!m.cut_err && victim_dead(V0))) { o.open_failed = true; return o; }
+        V0.close();
+    } else if (m.resumed || m.ticket) {
         if (vc.client) { if (matrixSslNewSessionId(&sid, NULL) < 0) { o.open_failed = true; return o; } vc.sid = sid; }
         Endpoint V0; if (V0.open(vc) < 0) { o.open_failed = true; return o; }
         pup::Config pc0 = pc; pc0.seed = seed + 7777; pc0.ack_ticket_ext = m.ticket; pup::Puppet12 P0(pc0);   // ticket mode: session id + NewSessionTicket
@@ -157,6 +173,7 @@ static Outcome run_trace(const Mode &m, const std::vector<Item> &items, size_t c
         if (m.resumed) { pc.resume = P0.session(); if (!pc.resume.valid()) { o.open_failed = true; return o; } }
     }
     // wrong-session-secret deviation: the puppet keys the abbreviated handshake with a master secret that is not the session's
+    pc.server_empty_session_id = empty_sid;
     if (secret == 1) pc.master_override.assign(48, 0);
     else if (secret == 2) { pc.master_override.resize(48); uint64_t x = 0x9E3779B97F4A7C15ULL * (seed + 3); for (auto &b : pc.master_override) { x ^= x << 13; x ^= x >> 7; x ^= x << 17; b = (uint8_t) (x >> 24); } }
     Endpoint V;
@@ -216,7 +233,7 @@ static std::string selftest_mode(const Mode &m) {
 }
 static const std::string &selftest(const Mode &m) {
     static std::map<int, std::string> done;
-    int key = (m.victim_server ? 1 : 0) | m.sv << 1 | (m.cauth ? 1 : 0) << 4 | m.ems << 5 | (m.resumed ? 1 : 0) << 7 | (m.ticket ? 1 : 0) << 8;
+    int key = (m.victim_server ? 1 : 0) | m.sv << 1 | (m.cauth ? 1 : 0) << 4 | m.ems << 5 | (m.resumed ? 1 : 0) << 7 | (m.ticket ? 1 : 0) << 8 | m.cut << 9 | (m.cut_err ? 1 : 0) << 11;
     auto f = done.find(key); if (f != done.end()) return f->second;
     return done[key] = selftest_mode(m);
 }
@@ -288,7 +305,7 @@ static bool apply_op(Op &op, std::vector<Item> &it, const Mode &m) {
     case O_SECRET: {   // the abbreviated handshake, keyed by the puppet with a master secret that is not the session's (arg 0: 48 zero bytes, 1: random);
                        // in a mode where the victim expects a full handshake the abbreviated trace is sent all the same (fresh session id, no ticket extension)
         if (!m.resumed) { Mode m2 = m; m2.resumed = true; it = base_items(m2); }
-        op.arg = op.arg & 1; op.text = fmt("wrong-session-secret(%s)", op.arg ? "random" : "zero"); return true;
+        op.arg = op.arg & 3; op.text = fmt("wrong-session-secret(%s%s)", (op.arg & 1) ? "random" : "zero", (op.arg & 2) ? ",empty-session-id" : ""); return true;
     }
     case O_MODE: {   // the complete legal trace of a neighbouring mode: other client-auth setting / other key exchange / abbreviated instead of full (or vice versa)
         Mode m2 = m;
@@ -313,7 +330,7 @@ static Op draw_op(Tape &t, const std::vector<Item> &it) {
     case O_FLIPFIN: op.arg = (int) t.below(96); break;
     case O_MODE: op.arg = (int) t.below(3); break;
     case O_CCSBODY: op.arg = (int) t.below(6); break;
-    case O_SECRET: op.arg = t.coin(); break;
+    case O_SECRET: op.arg = (int) t.below(4); break;
     }
     return op;
 }
@@ -332,7 +349,7 @@ static std::vector<Op> all_singles(const Mode &m) {
     for (int i = 0; i < n; i++) add(O_PROT, i, 0);
     for (int a = 0; a < 3; a++) add(O_MODE, 0, a);
     for (int a = 0; a < 6; a++) add(O_CCSBODY, 0, a);
-    for (int a = 0; a < 2; a++) add(O_SECRET, 0, a);
+    for (int a = 0; a < 4; a++) add(O_SECRET, 0, a);
     return r;
 }
 // the modes of the bounded-exhaustive target
@@ -343,6 +360,9 @@ static std::vector<Mode> enum_modes() {
         for (int k = 0; k < 3; k++) { Mode m; m.victim_server = vs == 1; m.sv = sv; m.cauth = k == 1; m.ems = ems; m.resumed = k == 2; r.push_back(m); }
         // client whose session holds an id and a ticket: server accepts (abbreviated) / declines (full)
         if (vs == 0 && ems == 0 && (sv == 0 || sv == 1 || sv == 4)) for (int k = 0; k < 2; k++) { Mode m; m.victim_server = false; m.sv = sv; m.cauth = false; m.ems = 0; m.resumed = k == 0; m.ticket = true; r.push_back(m); }
+        // client whose session id went through a handshake that was cut after the server's NewSessionTicket (and two neighbouring cut points)
+        if (vs == 0 && ems == 0 && (sv == 0 || sv == 1 || sv == 4)) { Mode m; m.victim_server = false; m.sv = sv; m.cauth = false; m.ems = 0; m.cut = sv == 4 ? 3 : 2; m.cut_err = sv == 1; r.push_back(m); }
+        if (vs == 0 && ems == 0 && sv == 0) { Mode m; m.victim_server = false; m.sv = sv; m.cauth = true; m.ems = 0; m.cut = 1; m.cut_err = true; r.push_back(m); }
     }
     return r;
 }
@@ -380,6 +400,7 @@ static void prop(Tape &t, Ctx &c) {
     uint32_t seed = t.u16();
     m.resumed = rk == 0;
     if (rk == 4 && !m.victim_server) { m.ticket = true; m.resumed = seed & 1; }
+    if (rk == 3 && !m.victim_server) { m.cut = 1 + (int) ((seed >> 1) % 3); if (m.cut == 1 && (seed & 8)) m.cut = 2; m.cut_err = seed & 1; }   // ticket-from-cut-handshake, mostly cut after NewSessionTicket
     unsigned nsel = (unsigned) t.below(10); int nops = nsel == 0 ? 0 : nsel <= 5 ? 1 : 2;   // single deviations are also enumerated completely by c06_seq12_singles
     std::vector<Item> it = base_items(m);
     std::vector<Op> ops;
@@ -415,7 +436,7 @@ static void prop(Tape &t, Ctx &c) {
     std::vector<Tk> tk = tokenize(it);
     bool ecdhe = pup::suite_is_ecdhe(SV[m.sv].suite);
     Verdict v = judge(m.victim_server, ecdhe, m.cauth, m.resumed, tk);
-    int secret = 0; for (auto &op : ops) if (op.kind == O_SECRET) secret = op.arg + 1;
+    int secret = 0; bool empty_sid = false; for (auto &op : ops) if (op.kind == O_SECRET) { secret = (op.arg & 1) + 1; empty_sid = (op.arg & 2) != 0; }
     if (secret) {
         // "the peer's Finished value matches the receiver's own transcript" is meant under the session's own secret: whatever else the trace does, a peer
         // that keys an abbreviated handshake with another master secret must never get a completed handshake
@@ -437,17 +458,17 @@ static void prop(Tape &t, Ctx &c) {
     c.sample(desc); if (c.verbose) fprintf(stderr, "case: %s\n  model: viol_at=%d done_at=%d unk_at=%d weak=%d %s\n", desc.c_str(), v.viol_at, v.done_at, v.unk_at, v.weak, v.why.c_str());
 
     Bytes vsay = bytes_of("victim-application-data");
-    Outcome o = run_trace(m, it, chunk, seed, &vsay, secret);
+    Outcome o = run_trace(m, it, chunk, seed, &vsay, secret, empty_sid);
     if (o.open_failed) throw Discard{};
     if (c.verbose) fprintf(stderr, "  outcome: complete=%d(after %d) dead=%d rc=%d delivered=%zu alert_from_victim=%d puppet_err=%s\n", o.ever_complete, o.complete_after, o.dead, o.last_rc, o.delivered.size(), o.alert_from_victim, o.puppet_err.c_str());
 
     // ---- safety invariants (every case)
     VF_CHECK(!o.early_delivery, "appdata-delivered-before-handshake-complete", "APP_DATA delivered while matrixSslHandshakeIsComplete()==false; %s", desc.c_str());
     std::string sig = v.sig.empty() ? "completed-illegal-trace" : v.sig;
-    std::string shape = fmt("%d|%d|%d|%d%d|", m.victim_server, m.sv, m.cauth, m.resumed, m.ticket);
+    std::string shape = fmt("%d|%d|%d|%d%d%d|", m.victim_server, m.sv, m.cauth, m.resumed, m.ticket, m.cut);
     for (auto &op : ops) shape += fmt("%d.%d.%d|", op.kind, op.pos, (op.kind == O_SUBST || op.kind == O_INJECT || op.kind == O_RETAG || op.kind == O_SECRET) ? op.arg : 0);
     c.count(fmt("ops:%d", (int) ops.size())); for (auto &op : ops) c.count(std::string("op:") + op_name[op.kind]);
-    c.count(std::string("victim:") + (m.victim_server ? "server" : "client")); c.count(std::string("sv:") + SV[m.sv].name); c.count(m.ticket ? (m.resumed ? "kind:id+ticket-accepted" : "kind:id+ticket-declined") : m.resumed ? "kind:resumed" : "kind:full");
+    c.count(std::string("victim:") + (m.victim_server ? "server" : "client")); c.count(std::string("sv:") + SV[m.sv].name); c.count(m.cut ? "kind:ticket-from-cut-handshake" : m.ticket ? (m.resumed ? "kind:id+ticket-accepted" : "kind:id+ticket-declined") : m.resumed ? "kind:resumed" : "kind:full");
     if (o.ever_complete) c.count("victim-completed");
 
     if (v.viol_at >= 0 && v.done_at < 0) {
@@ -486,6 +507,9 @@ static void prop(Tape &t, Ctx &c) {
         VF_CHECK(!o.ever_complete, sig.c_str(), "victim completed although the trace stops before the legal language is complete; %s", desc.c_str());
         c.nontrivial(shape + "p");
     }
+    // history mode: nothing of a handshake whose server Finished was never verified may be offered for resumption
+    if (m.cut) VF_CHECK(o.ch_ticket_len == 0 && o.ch_sid_len == 0, "ticket-of-incomplete-handshake-offered",
+                        "the ClientHello after a cut handshake offers resumption state of that handshake (session id %zu bytes, ticket %zu bytes); %s", o.ch_sid_len, o.ch_ticket_len, desc.c_str());
     {   // delivered bytes must be a prefix of the application payloads sent after the model's completion point (and before any violation)
         Bytes allowed; if (v.done_at >= 0) for (size_t i = (size_t) v.done_at + 1; i < it.size(); i++) { if (v.viol_at >= 0 && (int) i >= v.viol_at) break; if (tk[i].t == T_APP && it[i].st.msg == pup::M_APPDATA) allowed.insert(allowed.end(), it[i].st.payload.begin(), it[i].st.payload.end()); }
         bool prefix = o.delivered.size() <= allowed.size() && std::equal(o.delivered.begin(), o.delivered.end(), allowed.begin());
